@@ -73,6 +73,8 @@ C08b(e) == e.refqlen >= 0 => e.refqlen = 0
 C08c(e) == e.orphancalls = 0 /\ (e.k \in {"begin", "end"} => e.bgcalls = 0)
 
 C09a(e) == (e.done /\ e.op = "retain" /\ e.result # "unexpected_panic") =>
+              \* the predicate (possibly stateful) is asked exactly once per idle object, in queue order
+              /\ e.predcalls = e.idlebefore
               /\ e.removed = SelectSeq(e.idlebefore, LAMBDA x : x \notin SeqSet(e.keep))
               /\ e.retained = Len(e.idlebefore) - Len(e.removed)
 C09b(e) == e.k = "end" =>
